@@ -39,21 +39,113 @@ fn has_type(q: &Value, tys: &[&str]) -> bool {
   }
 }
 
+fn has_key(q: &Value, key: &str) -> bool {
+  match q {
+    Value::Object(m) => m.contains_key(key) || m.values().any(|v| has_key(v, key)),
+    Value::Array(a) => a.iter().any(|v| has_key(v, key)),
+    _ => false,
+  }
+}
+
 pub fn queries(n: usize) -> BoxedStrategy<Vec<Q>> {
   let schema = scoreworld::schema();
   let mut g = QGen::new(&schema, 15, false);
   g.phrases = true;
+  g.min_score = true;
   let filt = c08::root_filter(&schema, 1);
-  let q = (g.tree(2), 1usize..50, proptest::option::weighted(0.25, filt), select(vec!["wand", "bmw", "bmw"]), proptest::option::of(prop_oneof![1usize..8, 1usize..300]))
+  // some trees are wrapped in a root function_score with min_score: the score adjustment then rejects documents
+  let tree = (g.tree(2), proptest::option::weighted(0.15, select(vec![0.23f64, 0.57, 1.09, 2.03, 3.37]))).prop_map(|(q, m)| match m {
+    Some(m) => json!({"type": "function_score", "query": q, "functions": [{"type": "weight", "weight": 1.0}], "min_score": m}),
+    None => q,
+  });
+  let q = (tree, prop_oneof![1 => 1usize..4, 3 => 1usize..50], proptest::option::weighted(0.25, filt), select(vec!["wand", "bmw", "bmw"]), proptest::option::of(prop_oneof![2 => 1usize..8, 2 => 1usize..300, 1 => Just(128usize)]))
     .prop_map(|(query, limit, filter, strategy, block_size)| Q { query, limit, filter, strategy: strategy.to_string(), block_size });
   vec(q, n).boxed()
+}
+
+/// Queries on one given word with small limits and the stored block size (None / 128) or another one.
+fn spike_queries(word: &'static str) -> BoxedStrategy<Vec<Q>> {
+  let other = select(scoreworld::VOCAB.to_vec());
+  let q = (0u8..3, other, 1usize..4, select(vec!["bmw", "bmw", "bmw", "wand"]), select(vec![None, None, Some(128usize), Some(128), Some(64), Some(127)])).prop_map(move |(shape, o, limit, strategy, block_size)| {
+    let t = json!({"type": "term", "field": "body", "value": word});
+    let query = match shape {
+      0 => t,
+      1 => json!({"type": "bool", "must": [], "should": [t, {"type": "term", "field": "body", "value": o}], "must_not": [], "filter": []}),
+      _ => json!({"type": "bool", "must": [t], "should": [{"type": "term", "field": "title", "value": o}], "must_not": [], "filter": []}),
+    };
+    Q { query, limit, filter: None, strategy: strategy.to_string(), block_size }
+  });
+  vec(q, 8).boxed()
+}
+
+/// Block-boundary corpus: every document gets a body of exactly LEN (8) tokens containing `word` once (so its posting index
+/// equals the document ordinal of the segment and length normalisation is the same for all), a few documents anywhere
+/// carry it 2-4 times, and documents at / next to the last position of each 128-posting block carry it 4-8 times: the
+/// stored per-block maxima then decide whether bmw may skip a block.
+fn spiked(mut w: World, word: &str, ends: &[(u8, u8)], anywhere: &[(u16, u8)]) -> World {
+  const LEN: usize = 8;
+  let n = w.docs.len();
+  let others: Vec<&str> = scoreworld::VOCAB.iter().copied().filter(|v| *v != word).collect();
+  let body_with = |d: &serde_json::Map<String, Value>, i: usize, tf: usize| -> Value {
+    let own: Vec<String> = d.get("body").and_then(|b| b.as_str()).unwrap_or("").split_whitespace().filter(|t| *t != word).map(|t| t.to_string()).collect();
+    let mut toks: Vec<String> = vec![word.to_string(); tf.min(LEN)];
+    let mut k = 0usize;
+    while toks.len() < LEN {
+      toks.push(if own.is_empty() { others[(i + k) % others.len()].to_string() } else { own[k % own.len()].clone() });
+      k += 1;
+    }
+    // the word is not always at the front
+    toks.rotate_left(i % LEN);
+    json!(toks.join(" "))
+  };
+  for i in 0..n {
+    let b = body_with(&w.docs[i], i, 1);
+    w.docs[i].insert("body".into(), b);
+  }
+  for (pos, tf) in anywhere {
+    if n > 0 {
+      let i = (*pos as usize * n) >> 16;
+      let b = body_with(&w.docs[i], i, 2 + (*tf as usize % 3));
+      w.docs[i].insert("body".into(), b);
+    }
+  }
+  let mut start = 0usize;
+  let mut k = 0usize;
+  for c in w.commits.clone() {
+    let mut end_of_block = 127usize;
+    while end_of_block < c {
+      if !ends.is_empty() {
+        let (delta, tf) = ends[k % ends.len()];
+        k += 1;
+        // delta: 0,1 -> the closing posting itself; 2 -> one before; 3 -> one after (first of the next block)
+        let at = match delta % 4 {
+          2 => end_of_block.saturating_sub(1),
+          3 => (end_of_block + 1).min(c - 1),
+          _ => end_of_block,
+        };
+        let b = body_with(&w.docs[start + at], start + at, 4 + (tf as usize % 5));
+        w.docs[start + at].insert("body".into(), b);
+      }
+      end_of_block += 128;
+    }
+    start += c;
+  }
+  w
+}
+
+fn map_min_score(v: &Value, factor: f64) -> Value {
+  match v {
+    Value::Object(m) => Value::Object(m.iter().map(|(k, x)| if k == "min_score" && x.is_number() { (k.clone(), json!(x.as_f64().unwrap_or(0.0) * factor)) } else { (k.clone(), map_min_score(x, factor)) }).collect()),
+    Value::Array(a) => Value::Array(a.iter().map(|x| map_min_score(x, factor)).collect()),
+    other => other.clone(),
+  }
 }
 
 impl Property for C09 {
   type Case = Case;
   const ID: &'static str = "C09";
   fn rule() -> String {
-    "cases = a corpus of 30-2500 short documents over a 15-word vocabulary (long posting lists) in 1-3 segments with optional deletions and one of four (k1,b) settings, and 12 scored query trees (terms, bool, dis_max+tie_breaker, boosts incl. 0, multi_match, prefix/wildcard/regex, function_score, script_score, rank_feature, constant_score, phrases) each with limit 1..50, optional filter, execution wand|bmw and bmw_block_size 1..300; the pruned response is compared with execution=bm25 on the same reader: same length, position-wise scores, per-id scores, membership differing only among hits tied with the k-th score; total_hits_estimate(pruned) <= total_hits_estimate(bm25). Non-trivial = more matches than the limit, >=2 scored terms and a posting list longer than the block size; distinct = hash of (query, limit, strategy, block, corpus size)".into()
+    "cases = (5 in 7) a corpus of 30-2500 short documents over a 15-word vocabulary (long posting lists) in 1-3 segments with optional deletions and one of four (k1,b) settings, and 12 scored query trees (terms, bool, dis_max+tie_breaker, boosts incl. 0, multi_match, prefix/wildcard/regex, function_score incl. min_score (also as a root wrapper, 15%), script_score, rank_feature, constant_score, phrases) each with limit 1..50 (a quarter 1..3), optional filter, execution wand|bmw and bmw_block_size 1..300 / 128 / default; (2 in 7) a block-boundary corpus of 200-800 documents of equal length in which one word occurs in every document (posting index = document ordinal), a few documents anywhere carry it 2-4 times and the documents at / next to the last position of each 128-posting block carry it 4-8 times, with 4 generated trees plus 8 term / bool queries on that word with limit 1..3, bmw (default, 128, 64, 127) or wand; the pruned response is compared with execution=bm25 on the same reader: same length, position-wise scores, per-id scores, membership differing only among hits tied with the k-th score; total_hits_estimate(pruned) <= total_hits_estimate(bm25); a difference on a query with min_score only counts when it persists with the thresholds moved by +-0.1% (a score on the threshold may be summed in a different order). Non-trivial = more matches than the limit, >=2 scored terms and a posting list longer than the block size; distinct = hash of (query, limit, strategy, block, corpus size)".into()
   }
   fn assumptions() -> Vec<String> {
     vec!["scores are compared with relative tolerance 1e-5 (f32 sums are accumulated in different orders by the strategies)".into()]
@@ -68,7 +160,16 @@ impl Property for C09 {
     let small = WorldOpts { min_docs: 30, max_docs: 300, max_commits: 3, deletes: true, ties: false, vocab: 15 };
     let large = WorldOpts { min_docs: 600, max_docs: tier.pick(1500, 2500), max_commits: 3, deletes: true, ties: false, vocab: 15 };
     let w = prop_oneof![5 => scoreworld::world(small), 1 => scoreworld::world(large)];
-    (w, queries(12)).prop_map(|(world, queries)| Case { world, queries }).boxed()
+    let plain = (w, queries(12)).prop_map(|(world, queries)| Case { world, queries });
+    // block-boundary corpora: one word in every document, high-tf documents at the ends of the 128-posting blocks
+    let mid = WorldOpts { min_docs: 200, max_docs: 800, max_commits: 2, deletes: true, ties: false, vocab: 15 };
+    let spiky = select(vec!["the", "rust", "fox"]).prop_flat_map(move |word| {
+      (scoreworld::world(mid), vec((0u8..4, 0u8..5), 2..6), vec((any::<u16>(), 0u8..6), 0..12), queries(4), spike_queries(word)).prop_map(move |(world, ends, anywhere, mut queries, extra)| {
+        queries.extend(extra);
+        Case { world: spiked(world, word, &ends, &anywhere), queries }
+      })
+    });
+    prop_oneof![5 => plain, 2 => spiky].boxed()
   }
   fn run(case: &Case, ctx: &Ctx) -> Outcome {
     let mut out = Outcome::new();
@@ -119,9 +220,34 @@ impl Property for C09 {
       if custom {
         out.class("custom-scoring");
       }
+      if has_key(&q.query, "min_score") {
+        out.class("min-score");
+      }
       let mut problem = rank::same_top_k(&hp, &he).err();
       if problem.is_none() && rp.total_hits_estimate > re.total_hits_estimate {
         problem = Some(format!("total_hits_estimate {} under {} exceeds {} under bm25", rp.total_hits_estimate, q.strategy, re.total_hits_estimate));
+      }
+      // a document whose score sits on a min_score threshold may be kept by one strategy and dropped by the other
+      // (f32 sums in different orders): a difference only counts when it persists with the thresholds moved both ways
+      if problem.is_some() && has_key(&q.query, "min_score") {
+        let mut persists = true;
+        for factor in [1.001f64, 0.999] {
+          let (mut e2, mut p2) = (exhaustive.clone(), pruned.clone());
+          e2["query"] = map_min_score(&q.query, factor);
+          p2["query"] = map_min_score(&q.query, factor);
+          match (sut::search(&reader, e2), sut::search(&reader, p2)) {
+            (Ok(a), Ok(b)) => {
+              if rank::same_top_k(&hits(&b), &hits(&a)).is_ok() && b.total_hits_estimate <= a.total_hits_estimate {
+                persists = false;
+              }
+            }
+            _ => {}
+          }
+        }
+        if !persists {
+          out.class("min-score-threshold-tie");
+          problem = None;
+        }
       }
       if let Some(p) = problem {
         let detail = format!("{} vs bm25: {p}; request {pruned}; pruned {:?}; exhaustive {:?}", q.strategy, hp.iter().take(8).collect::<Vec<_>>(), he.iter().take(8).collect::<Vec<_>>());
